@@ -128,6 +128,7 @@ class Obs:
     chart: Any = None
     n_tasks: int = 0
     waiters: Any = None
+    cancel_delivered: Any = None
 
     @property
     def value(self) -> Any:
@@ -218,14 +219,18 @@ def run_engine(spec: Spec, beh: Behaviour, cfg: Optional[Cfg] = None, chart: Any
 
     async def main() -> Any:
         CUR.set(rc)
-        return await chart.run(pipeline_id=cfg.pipeline_id, input_kwargs=inp)
+        try:
+            return await chart.run(pipeline_id=cfg.pipeline_id, input_kwargs=inp)
+        finally:
+            rc.closed = True
 
     exc: Optional[BaseException] = None
     result = None
+    cancel_state: Dict[str, Any] = {"task": None, "cancelled_at": None}
     if cfg.cancel_at is None:
         kind, payload = loop.run_to_verdict(main())
     else:
-        kind, payload = _run_with_cancel(loop, main, cfg.cancel_at)
+        kind, payload = _run_with_cancel(loop, main, cfg.cancel_at, cancel_state)
     if kind == "done":
         result = payload
     elif kind in ("raised", "cancelled"):
@@ -237,7 +242,7 @@ def run_engine(spec: Spec, beh: Behaviour, cfg: Optional[Cfg] = None, chart: Any
     drain = ""
     if cfg.drain and kind not in ("deadlock", "livelock"):
         drain = loop.drain()
-    pending = sorted(t.get_name() for t in loop.tasks if not t.done())
+    pending = sorted(_tname(t) for t in loop.tasks if not t.done())
     # control-flow exceptions stored in tasks must not be mistaken for engine behaviour
     for t in loop.tasks:
         if t.done() and not t.cancelled():
@@ -251,12 +256,12 @@ def run_engine(spec: Spec, beh: Behaviour, cfg: Optional[Cfg] = None, chart: Any
     cf_guard.check()
     return Obs(kind=kind, result=result, exc=exc, rc=rc, iterations=its, pending_tasks=pending,
                drain=drain, loop_errors=n_err, input_kwargs_after=inp, input_kwargs_before=before,
-               dag=chart.entrypoint, chart=chart, n_tasks=n_tasks, waiters=waiters)
+               dag=chart.entrypoint, chart=chart, n_tasks=n_tasks, waiters=waiters,
+               cancel_delivered=cancel_state["cancelled_at"])
 
 
-def _run_with_cancel(loop: VLoop, main: Any, cancel_at: Any) -> Tuple[str, Any]:
+def _run_with_cancel(loop: VLoop, main: Any, cancel_at: Any, state: Dict[str, Any]) -> Tuple[str, Any]:
     """Start the run as a task; cancel it when the loop iteration counter reaches cancel_at."""
-    state: Dict[str, Any] = {"task": None, "cancelled_at": None}
 
     def on_iteration(lp: VLoop) -> None:
         t = state["task"]
@@ -269,7 +274,7 @@ def _run_with_cancel(loop: VLoop, main: Any, cancel_at: Any) -> Tuple[str, Any]:
         state["task"] = t
         loop.on_iteration = on_iteration
         try:
-            return ("done", await asyncio.shield(t)) if False else ("done", await _wait(t))
+            return ("done", await _wait(t))
         finally:
             loop.on_iteration = None
 
@@ -295,9 +300,119 @@ def _run_with_cancel(loop: VLoop, main: Any, cancel_at: Any) -> Tuple[str, Any]:
     return "done", t.result()
 
 
+def _tname(t: Any) -> str:
+    n = t.get_name()
+    return "<caller>" if n.startswith("Task-") else n
+
+
 def _waiters(loop: VLoop) -> Any:
     out = []
     for t in loop.tasks:
         if not t.done():
-            out.append(t.get_name())
+            out.append(_tname(t))
     return sorted(out)
+
+
+# ------------------------------------------------------------------ overlapping runs (C08)
+def run_overlapping(spec: Spec, behs: List[Behaviour], cfg: Cfg, charts: List[Any],
+                    cancel_first_at: Any = None) -> List[Obs]:
+    """Several chart.run coroutines on one virtual loop (one chart or charts sharing node classes)."""
+    loop = new_loop(cfg)
+    rcs = [make_rc(spec, b, cfg, loop) for b in behs]
+    inps = [b.inputs() for b in behs]
+    befores = [dict(i) for i in inps]
+    tasks: List[Any] = []
+    state: Dict[str, Any] = {"cancelled_at": None}
+
+    def mk(i: int) -> Any:
+        async def one() -> Any:
+            CUR.set(rcs[i])
+            try:
+                return await charts[i].run(pipeline_id="pid%d" % i, input_kwargs=inps[i])
+            finally:
+                rcs[i].closed = True
+
+        return one
+
+    def on_iteration(lp: VLoop) -> None:
+        if tasks and state["cancelled_at"] is None and not tasks[0].done() and lp.iterations == cancel_first_at:
+            state["cancelled_at"] = lp.iterations
+            tasks[0].cancel()
+
+    async def main() -> Any:
+        for i in range(len(behs)):
+            tasks.append(asyncio.ensure_future(mk(i)()))
+        if cancel_first_at is not None:
+            loop.on_iteration = on_iteration
+        for t in tasks:
+            while not t.done():
+                fut = loop.create_future()
+                t.add_done_callback(lambda _t, f=fut: (not f.done()) and f.set_result(None))
+                await fut
+        loop.on_iteration = None
+        return None
+
+    kind, payload = loop.run_to_verdict(main())
+    out: List[Obs] = []
+    for i, rc in enumerate(rcs):
+        t = tasks[i] if i < len(tasks) else None
+        k, res, exc = kind, None, None
+        if t is not None and t.done():
+            if t.cancelled():
+                k, exc = "cancelled", asyncio.CancelledError()
+            else:
+                e = t.exception()
+                if e is not None:
+                    if is_control_flow(e):
+                        cf_guard.note(e)
+                    k, exc = "raised", e
+                else:
+                    k, res = "done", t.result()
+        elif kind == "done":
+            k = "deadlock"
+        out.append(Obs(kind=k, result=res, exc=exc, rc=rc, iterations=loop.iterations,
+                       pending_tasks=[], input_kwargs_after=inps[i], input_kwargs_before=befores[i],
+                       dag=charts[i].entrypoint, chart=charts[i], cancel_delivered=state["cancelled_at"] if i == 0 else None))
+    for t in loop.tasks:
+        if t.done() and not t.cancelled():
+            e = t.exception()
+            if e is not None and is_control_flow(e):
+                cf_guard.note(e)
+    loop.shutdown()
+    cf_guard.check()
+    return out
+
+
+def graph_snapshot(dag: Any) -> Dict[str, Any]:
+    g = dag.graph
+    return {
+        "nodes": {n: dict(g.nodes[n]) for n in g.nodes},
+        "edges": {"%s->%s" % (u, v): dict(g.edges[u, v]) for u, v in g.edges},
+        "node_map": {k: v for k, v in dag.node_map.items()},
+        "io": (dag.input_node, dag.output_node, dag.is_process_pool_needed, dag.is_thread_pool_needed),
+    }
+
+
+def snapshot_diff(a: Dict[str, Any], b: Dict[str, Any]) -> Optional[str]:
+    for sect in ("nodes", "edges"):
+        if sorted(a[sect].keys()) != sorted(b[sect].keys()):
+            return "%s_changed" % sect
+        for k in a[sect]:
+            da, db = a[sect][k], b[sect][k]
+            ka = sorted(str(x.value if hasattr(x, "value") else x) for x in da.keys())
+            kb = sorted(str(x.value if hasattr(x, "value") else x) for x in db.keys())
+            if ka != kb:
+                return "%s_attr_keys:%s:%s" % (sect, k, ",".join(sorted(set(ka) ^ set(kb))))
+            for key in da:
+                va, vb = da[key], db[key]
+                if isinstance(va, (bool, str, list, tuple, type(None))) or isinstance(vb, (bool, str, list, tuple, type(None))):
+                    if type(va) is not type(vb) or va != vb:
+                        return "%s_attr_value:%s:%s" % (sect, k, key.value if hasattr(key, "value") else key)
+                elif not bool(va == vb):
+                    return "%s_attr_value:%s:%s" % (sect, k, key.value if hasattr(key, "value") else key)
+    if sorted(a["node_map"].keys()) != sorted(b["node_map"].keys()) or any(
+            a["node_map"][k] is not b["node_map"][k] for k in a["node_map"]):
+        return "node_map_changed"
+    if a["io"] != b["io"]:
+        return "dag_fields_changed"
+    return None
